@@ -47,6 +47,13 @@ def table_of(p, mother):
     return out
 
 
+def raw_tables(p):
+    """The tables exactly as the accessor reports them (no canonical form for 'no parameters'): for comparing two
+    texts read by the SAME implementation, where also the representation must agree."""
+    return {m: [p._decay_mode_details(dm, display_photos_keyword=True) for dm in p._find_decay_modes(m)]
+            for m in dict.fromkeys(p.list_decay_mother_names())}
+
+
 def tables(p):
     return {m: table_of(p, m) for m in dict.fromkeys(p.list_decay_mother_names())}
 
